@@ -8,6 +8,9 @@ LEVEL = "other"
 def run(rep, tier, seed):
     from checks import syntactic
     syntactic.run(rep, "C02")
+    proved_tier(rep, "C02", seed, expected_min_obligations=8)
+    rep.assume("C02 proved part: only the exhausted path (loop not entered) and the timeout path (first iteration) of "
+               "solve() are verified; int(time.time()) is modelled as an integer clock that never decreases")
     bounded_C02.run(rep, tier, seed)
 
 
